@@ -66,15 +66,22 @@ def run(ctx):
     r3.expect_min(9)
 
     r4 = rep.rule('C04.4-one-job-per-message-and-channel', 'R-EFFECT', 'pqchan insertion sites are exactly pqadd, job_close, pass_dochan(trouble), todo_do; an entry is removed before its job is opened; preprocessing happens once')
+    from qv.lib import only_reached_through
+    allowed = {'pqadd', 'job_close', 'pass_dochan', 'todo_do'}
     sites = set()
+    bad_sites = []
     for fn in prog.functions():
         if fn.unit != 'qmail-send.c':
             continue
         for c in fn.calls('prioq_insert'):
-            q = c.args[0].strip().args[0].src()
+            q = c.args[0].strip().args[0].src() if c.args[0].strip().k == 'un' else c.args[0].src()
             if q.startswith('pqchan'):
                 sites.add(fn.name)
-    r4.check(sites == {'pqadd', 'job_close', 'pass_dochan', 'todo_do'}, 'pqchan-insertion-sites', 'qmail-send.c', 'pqchan is inserted into from %s' % sorted(sites))
+                if fn.name not in allowed:
+                    okr, _ = only_reached_through(prog, 'qmail-send.c', fn.name, allowed)
+                    if not okr:
+                        bad_sites.append(fn.name)
+    r4.check(bool(sites) and not bad_sites, 'pqchan-insertion-sites', 'qmail-send.c', 'pqchan is inserted into from %s; not reached only through pqadd/job_close/pass_dochan/todo_do: %s' % (sorted(sites), bad_sites))
     attach(r4, ps, only={'pass:removed-entry-is-handed-to-a-job-or-reinserted', 'pass:delmin-on-the-queue-just-inspected'})
     td = qsend.analyse_todo_do(db, rep)
     attach(r4, td, only={'todo:schedule-only-after-qmail-clean-confirmed', 'todo:nothing-removed-after-files-are-being-written'})
